@@ -147,6 +147,7 @@ type reqSpec struct {
 	body     []byte
 	chunked  bool
 	close    bool
+	http10   bool // the client speaks HTTP/1.0 (no keep-alive: the connection ends with the response)
 }
 
 func (r reqSpec) wire() []byte {
@@ -155,7 +156,11 @@ func (r reqSpec) wire() []byte {
 	if r.absolute {
 		target = "http://example.com" + r.path
 	}
-	b.WriteString(r.method + " " + target + " HTTP/1.1\r\nHost: example.com\r\nX-A: " + r.hval + "\r\nX-M: m1\r\nx-m: m2\r\n")
+	version := " HTTP/1.1"
+	if r.http10 {
+		version = " HTTP/1.0"
+	}
+	b.WriteString(r.method + " " + target + version + "\r\nHost: example.com\r\nX-A: " + r.hval + "\r\nX-M: m1\r\nx-m: m2\r\n")
 	if r.close {
 		b.WriteString("Connection: close\r\n")
 	}
